@@ -24,7 +24,7 @@ def gen_cases(tier, seed):
     n = 192 if tier == "quick" else 4000
     cases = []
     for k in range(n):
-        cases.append({"epochs": int(rng.integers(1, 5)), "batches": int(rng.integers(1, 7)), "bs": int(rng.integers(2, 6)),
+        cases.append({"epochs": int(rng.integers(1, 5)) if k % 13 != 6 else 0, "batches": int(rng.integers(1, 7)), "bs": int(rng.integers(2, 6)),
                       "val": bool(k % 2), "val_batches": int(rng.integers(1, 4)), "evaluator": bool((k // 2) % 2 or k % 3 == 0 or k % 4 == 1),
                       "mode": ["multi-class", "binary", "categorical"][k % 3], "opt": ["SGD", "Adam"][(k // 3) % 2],
                       "callbacks": bool(k % 4 == 1), "extra_metric": bool(k % 5 == 2), "test": bool(k % 3 == 1), "leftover": int(rng.integers(0, 2)),
@@ -443,7 +443,11 @@ def run_case(ns, ctx, c):
             want_keys.add("f1")
     if c["val"]:
         want_keys |= {"val_" + k for k in list(want_keys)}
-    if set(hist.keys()) != want_keys:
+    if E == 0:
+        # zero epochs: no update, nothing recorded (an empty history, or lists without entries)
+        if any(len(v_) for v_ in hist.values()):
+            viol.append(V("history:entries-per-epoch", f"fit(epochs=0) recorded history entries: { {k_: len(v_) for k_, v_ in hist.items()} }"))
+    elif set(hist.keys()) != want_keys:
         viol.append(V("history:keys", f"history keys {sorted(hist.keys())}, expected {sorted(want_keys)}", config=c))
     for k_, v_ in hist.items():
         if len(v_) != E:
